@@ -231,7 +231,7 @@ class XWorld:
     """Source store (all objects), destination store on a FaultFS, optional index."""
 
     def __init__(self, w, trees, src_kind="local", dest_kind="base", use_index=False,
-                 dest_initial=(), src_missing=(), verify=False, corrupt=(), hash_name="md5"):
+                 dest_initial=(), src_missing=(), verify=False, corrupt=(), hash_name="md5", dest_state=False):
         from dvc_data.hashfile.db import HashFileDB
         from dvc_data.hashfile.db.index import ObjectDBIndex
         from dvc_data.hashfile.db.local import LocalHashFileDB
@@ -250,7 +250,15 @@ class XWorld:
         self.ffs.store_root = w.p("dest")
         os.makedirs(w.p("dest"), exist_ok=True)
         cls = LocalHashFileDB if dest_kind == "local" else HashFileDB
-        self.dest = cls(self.ffs, w.p("dest"), verify=verify, hash_name=hash_name)
+        self.state = None
+        skw = {}
+        if dest_state:
+            # the destination store keeps a hash-state database (as a local cache does)
+            from dvc_data.hashfile.state import State
+
+            self.state = State(root_dir=w.root, tmp_dir=w.p("dest.state"))
+            skw["state"] = self.state
+        self.dest = cls(self.ffs, w.p("dest"), verify=verify, hash_name=hash_name, **skw)
         fill_store(self.dest, dest_initial)
         self.index = None
         if use_index:
@@ -260,6 +268,8 @@ class XWorld:
     def close(self):
         if self.index is not None:
             self.index.close()
+        if self.state is not None:
+            self.state.close()
 
     def request(self, trees, closed=True, extra_files=()):
         hn = self.hash_name
